@@ -5,9 +5,9 @@ from decimal import Decimal, ROUND_HALF_EVEN
 decimal.getcontext().prec = 1500
 from tools import common as C, wire, oracle as O
 
-LEAN_MODULES = ["SCP.C07"]
+LEAN_MODULES = ["SCP.C07", "SCP.Setters"]
 THEOREMS = ["SCP.C07." + t for t in """digitOf_radixDigit radixValue_append radixValue_radixDigits radixDigits_ne_nil roundQuot_nearest
-roundQuot_tie_even fixedParts_value group_ungroup group_empty_sep group_shape groupsFromRight_flatten format_shape splitDot_join""".split()]
+roundQuot_tie_even fixedParts_value group_ungroup group_empty_sep group_shape groupsFromRight_flatten format_shape splitDot_join""".split()] + ["SCP.Setters.run_num", "SCP.Setters.run_pct", "SCP.Setters.run_money", "SCP.Setters.run_frame"]
 RULE = ("values injected exactly ([NUMBER:x] / [PERCENT:x] atoms, money and unit literals) from the classes {rounding ties "
         "k+0.5*10^-N +- ulp, 99..9.995, |x| < 10^-N, 10^k +- 1 up to 1e22, negatives, random doubles} x decimal digits 0..9 x "
         "zero-fraction removal x rounding x 5 separator pairs x kinds number/percent/money (every currency's digits, symbol, "
